@@ -14,7 +14,9 @@ Inductive sk :=
 | Skip | Raise | Return.
 
 (* kinds of file effects *)
-Inductive kind := KWrite | KAppend | KTrunc | KPoke | KDescr | KReadme | KMeta | KUnlinkMeta.
+Inductive kind := KWrite | KAppend | KTrunc | KPoke | KDescr | KReadme | KMeta | KUnlinkMeta
+| KV (k : kind) | KI (k : kind)      (* the effect k in values/ or indices/ of a RaggedArray *)
+| KRDescr | KRReadme.                (* top-level description / README of a RaggedArray *)
 
 Inductive outc := Normal | Raised | Returned.
 
